@@ -457,25 +457,134 @@ def split_prefix(wp):
     return pre, rest
 
 
-GUARD_EVENT = ("letenabled=$crate::level_enabled!($lvl)&&{letinterest=__CALLSITE.interest();"
-               "!interest.is_never()&&__CALLSITE.is_enabled(interest)};ifenabled{")
-GUARD_SPAN = ("letmutinterest=$crate::collect::Interest::never();if$crate::level_enabled!($lvl)&&{interest=__CALLSITE.interest();"
-              "!interest.is_never()}&&__CALLSITE.is_enabled(interest){")
+GCONJ = {"$lvl<=$crate::level_filters::STATIC_MAX_LEVEL": "GStaticMax",
+         "$lvl<=$crate::level_filters::LevelFilter::current()": "GCurrentMax",
+         "!interest.is_never()": "GInterestNotNever"}
+IS_ENABLED_BODY = "interest.is_always()||crate::dispatch::get_default(|default|default.enabled(self.meta))"
 
 
-def classify_valuesets(body, guard_txt, unrec, where):
-    """Where every `valueset!(` of a base arm sits: (InThen | InElse | Outside, log_only?)."""
-    wb = ws(body)
-    gi = wb.find(guard_txt)
-    if gi < 0:
-        unrec.append("%s: guard" % where)
+def split_and(s):
+    """top-level `&&` split of a whitespace-free expression"""
+    out, cur, depth, i = [], "", 0, 0
+    while i < len(s):
+        ch = s[i]
+        if ch in "([{":
+            depth += 1
+        elif ch in ")]}":
+            depth -= 1
+        if depth == 0 and s.startswith("&&", i):
+            out.append(cur)
+            cur = ""
+            i += 2
+            continue
+        cur += ch
+        i += 1
+    out.append(cur)
+    return out
+
+
+def parse_conjuncts(s, i):
+    """Conjuncts of `A && { .. } && B` starting at s[i]; stops at a top-level `;` or at the `{` that follows a
+    non-block conjunct (the then-block).  Returns ([conjunct text], index where it stopped)."""
+    conj = []
+    while True:
+        if s[i] == "{":
+            j = match_brace(s, i)
+            conj.append(s[i:j + 1])
+            i = j + 1
+        else:
+            j, depth = i, 0
+            while j < len(s):
+                ch = s[j]
+                if ch in "([":
+                    depth += 1
+                elif ch in ")]":
+                    depth -= 1
+                elif depth == 0 and (s.startswith("&&", j) or ch in "{;"):
+                    break
+                j += 1
+            conj.append(s[i:j])
+            i = j
+        if s.startswith("&&", i):
+            i += 2
+            continue
+        return conj, i
+
+
+class GuardInfo:
+    """What the guard conjuncts mean, read from `level_enabled!` and `MacroCallsite::is_enabled`."""
+    def __init__(self):
+        self.level_enabled = None      # list of gconj or None
+        self.is_enabled_ok = False
+
+    def conj(self, c, unrec, where):
+        """one conjunct text -> list of gconj names (None if not recognised)"""
+        if c == "$crate::level_enabled!($lvl)":
+            return self.level_enabled
+        if c in GCONJ:
+            return [GCONJ[c]]
+        if c == "__CALLSITE.is_enabled(interest)":
+            return ["GAlwaysOrEnabled"] if self.is_enabled_ok else None
+        m = re.fullmatch(r"\{(?:let)?interest=__CALLSITE\.interest\(\);(.*)\}", c)
+        if m:
+            out = []
+            for x in split_and(m.group(1)):
+                r = self.conj(x, unrec, where)
+                if r is None:
+                    return None
+                out += r
+            return out
         return None
-    then_open = gi + len(guard_txt) - 1
+
+
+def find_guard(wb, kind, ginfo, unrec, where):
+    """(guard as list of gconj, index of the `{` opening the then-branch) of a base arm, or (None, -1)."""
+    if kind == "event":
+        gi = wb.find("letenabled=")
+        if gi < 0:
+            unrec.append("%s: guard" % where)
+            return None, -1
+        conj, i = parse_conjuncts(wb, gi + len("letenabled="))
+        if not wb.startswith(";ifenabled{", i):
+            unrec.append("%s: `if enabled {`" % where)
+            return None, -1
+        then_open = i + len(";ifenabled{") - 1
+    else:
+        pre = "letmutinterest=$crate::collect::Interest::never();if"
+        gi = wb.find(pre)
+        if gi < 0:
+            unrec.append("%s: guard" % where)
+            return None, -1
+        conj, i = parse_conjuncts(wb, gi + len(pre))
+        if i >= len(wb) or wb[i] != "{":
+            unrec.append("%s: then-branch" % where)
+            return None, -1
+        then_open = i
+    g = []
+    for c in conj:
+        r = ginfo.conj(c, unrec, where)
+        if r is None:
+            unrec.append("%s: guard conjunct `%s`" % (where, c[:80]))
+            return None, -1
+        g += r
+    # the interest must be read before it is used
+    if "GAlwaysOrEnabled" in g and "GInterestNotNever" in g and g.index("GAlwaysOrEnabled") < g.index("GInterestNotNever"):
+        unrec.append("%s: is_enabled(interest) before the interest is read" % where)
+        return None, -1
+    return g, then_open
+
+
+def classify_valuesets(body, kind, ginfo, unrec, where):
+    """(guard, where every `valueset!(` of a base arm sits: (InThen | InElse | Outside, log_only?))."""
+    wb = ws(body)
+    g, then_open = find_guard(wb, kind, ginfo, unrec, where)
+    if g is None:
+        return None, None
     then_close = match_brace(wb, then_open)
     rest = wb[then_close + 1:]
     if not rest.startswith("else{"):
         unrec.append("%s: else branch" % where)
-        return None
+        return None, None
     else_open = then_close + 1 + 4
     else_close = match_brace(wb, else_open)
     # log-only regions: arguments of $crate::__tracing_log!( ... ) and $crate::if_log_enabled!{ ... }
@@ -501,7 +610,7 @@ def classify_valuesets(body, guard_txt, unrec, where):
         if arg not in ("meta.fields(),$($fields)*", "__CALLSITE.metadata().fields(),$($fields)*"):
             unrec.append("%s: valueset! arguments `%s`" % (where, arg[:60]))
         out.append("(%s, %s)" % (br, "true" if lg else "false"))
-    return out
+    return g, out
 
 
 def tr_bodies(mr, lib, unrec, G):
@@ -509,12 +618,22 @@ def tr_bodies(mr, lib, unrec, G):
     brace = []
     fwd_total = fwd_ok = 0
     # --- level_enabled!, is_enabled, the no-log stubs
+    ginfo = GuardInfo()
     d = macro_arms(mr, "level_enabled")
     a = d[0][1] if d and len(d) == 1 else None
-    if not a or [(ws(p), ws(b)) for p, b in a] != [("$lvl:expr", "$lvl<=$crate::level_filters::STATIC_MAX_LEVEL&&$lvl<=$crate::level_filters::LevelFilter::current()")]:
+    if a and len(a) == 1 and ws(a[0][0]) == "$lvl:expr":
+        cs = [GCONJ.get(c) for c in split_and(ws(a[0][1]))]
+        if all(c in ("GStaticMax", "GCurrentMax") for c in cs):
+            ginfo.level_enabled = cs
+    if ginfo.level_enabled is None:
         unrec.append("level_enabled! definition")
-    if not re.search(r"pub fn is_enabled\(&self, interest: Interest\) -> bool \{\s*interest\.is_always\(\)\s*\|\|\s*crate::dispatch::get_default\(\|default\| default\.enabled\(self\.meta\)\)\s*\}", lib):
+    m = re.search(r"pub fn is_enabled\(&self, interest: Interest\) -> bool \{", lib)
+    if m:
+        ob = lib.find("{", m.end() - 1)
+        ginfo.is_enabled_ok = ws(lib[ob + 1:match_brace(lib, ob)]) == IS_ENABLED_BODY
+    if not ginfo.is_enabled_ok:
         unrec.append("MacroCallsite::is_enabled body")
+    guards = []       # (where, guard) of every base arm
     a = pick_def(macro_arms(mr, "__tracing_log"))
     if not a or [(ws(p), ws(b)) for p, b in a] != [("$level:expr,$callsite:expr,$value_set:expr", "")]:
         unrec.append("__tracing_log! (log feature off) is not empty")
@@ -523,18 +642,20 @@ def tr_bodies(mr, lib, unrec, G):
                                                      ("$lvl:expr,$if_log:block", "$crate::if_log_enabled!{$lvl,$if_logelse{}}"),
                                                      ("$lvl:expr,$if_log:blockelse$else_block:block", "$else_block")]:
         unrec.append("if_log_enabled! (log feature off) does not reduce to its else block")
-    G.append("(* guard of every base arm, as a conjunction (level_enabled! / interest / MacroCallsite::is_enabled) *)")
-    G.append("Definition gen_guard : list gconj := [GStaticMax; GCurrentMax; GInterestNotNever; GAlwaysOrEnabled].")
+    fwdmap = {}       # (mkind, input prefix set) -> set of output prefix sets of its forwarding arms
 
     def strip_frag(s):
         return re.sub(r":(?:expr|tt|ident|literal|ty|block)\b", "", s)
 
-    def forwarder(macro, pre, rest, wb, level_txt):
-        """Is `wb` a single call of event!/span!/itself that passes the field tokens `rest` through in order?"""
+    def forwarder(macro, pre, rest, wb, level_txt, callees=None):
+        """Is `wb` a single call of event!/span!/itself that passes the field tokens `rest` through in order?
+        Returns the prefix set of the call ("name,target,parent" subset) or None."""
         m = re.fullmatch(r"\$crate::(\w+)!\((.*)\)", wb)
         if not m:
-            return False
+            return None
         callee, args = m.group(1), m.group(2)
+        if callee not in (callees or (macro,)):
+            return None
         r2 = strip_frag(rest)
         # output prefixes: same names in the same order; a missing target becomes module_path!()
         outs = []
@@ -546,14 +667,14 @@ def tr_bodies(mr, lib, unrec, G):
                 a = a[mm.end():]
         for nm in pre:
             if (nm, "$" + nm) not in outs:
-                return False
+                return None
         for nm, v in outs:
             if v.startswith("$") and nm not in pre:
-                return False
+                return None
         # level
         if level_txt is not None:
             if not a.startswith(level_txt + ","):
-                return False
+                return None
             a = a[len(level_txt) + 1:]
         cands = {"{" + r2 + "}", "{}," + r2, r2, r2 + ",", "{" + r2 + ",}"}
         if r2.startswith("$lvl,"):
@@ -563,7 +684,7 @@ def tr_bodies(mr, lib, unrec, G):
             cands |= {r2, r2 + ","}
         if r2 in ("$lvl,$name", "$name"):
             cands |= {r2 + ","}
-        return a in cands
+        return ",".join(nm for nm, _ in outs) if a in cands else None
 
     # --- event!
     d = macro_arms(mr, "event")
@@ -576,7 +697,9 @@ def tr_bodies(mr, lib, unrec, G):
         pre, rest = split_prefix(wp)
         ptxt = ",".join(pre)
         if rest == "$lvl:expr,{$($fields:tt)*}":
-            vs = classify_valuesets(b, GUARD_EVENT, unrec, "event!(%s) base arm" % ptxt)
+            g, vs = classify_valuesets(b, "event", ginfo, unrec, "event!(%s) base arm" % ptxt)
+            if g is not None:
+                guards.append(("event!(%s)" % ptxt, g))
             want_cs = ("static__CALLSITE:$crate::__macro_support::MacroCallsite=$crate::callsite2!{name:")
             if want_cs not in wb or "fields:$($fields)*};" not in wb:
                 unrec.append("event!(%s): callsite2! field tokens" % ptxt)
@@ -609,8 +732,11 @@ def tr_bodies(mr, lib, unrec, G):
                 unrec.append("event!(%s): `{ fields }, fmt-args` arm body `%s`" % (ptxt, wb[:120]))
             continue
         fwd_total += 1
-        if forwarder("event", pre, rest, wb, None):
+        o = forwarder("event", pre, rest, wb, None)
+        if o is not None:
             fwd_ok += 1
+            if o != ptxt:
+                fwdmap.setdefault(("MEvent", ptxt), set()).add(o)
         else:
             unrec.append("event!(%s) forwarding arm `%s` => `%s`" % (ptxt, rest[:50], wb[:100]))
     # --- span!
@@ -625,7 +751,9 @@ def tr_bodies(mr, lib, unrec, G):
         pre, rest = split_prefix(wp)
         ptxt = ",".join(pre)
         if rest == "$lvl:expr,$name:expr,$($fields:tt)*" and "__CALLSITE" in wb:
-            vs = classify_valuesets(b, GUARD_SPAN, unrec, "span!(%s) base arm" % ptxt)
+            g, vs = classify_valuesets(b, "span", ginfo, unrec, "span!(%s) base arm" % ptxt)
+            if g is not None:
+                guards.append(("span!(%s)" % ptxt, g))
             if "fields:$($fields)*};" not in wb:
                 unrec.append("span!(%s): callsite2! field tokens" % ptxt)
             if "parent" in pre:
@@ -643,8 +771,11 @@ def tr_bodies(mr, lib, unrec, G):
                 seen_base.add(ptxt)
             continue
         fwd_total += 1
-        if forwarder("span", pre, rest, wb, None):
+        o = forwarder("span", pre, rest, wb, None)
+        if o is not None:
             fwd_ok += 1
+            if o != ptxt:
+                fwdmap.setdefault(("MSpan", ptxt), set()).add(o)
         else:
             unrec.append("span!(%s) forwarding arm `%s` => `%s`" % (ptxt, rest[:50], wb[:100]))
     # --- the level shorthands: every arm is a forwarder into event!/span! with the macro's own level
@@ -663,10 +794,10 @@ def tr_bodies(mr, lib, unrec, G):
                 m = re.fullmatch(r"\$crate::(\w+)!\((.*)\)", wb)
                 ok = False
                 if m and m.group(1) == name:
-                    ok = forwarder(name, pre, rest, wb, None)       # `($name:expr) => trace_span!($name,)`
+                    ok = forwarder(name, pre, rest, wb, None) is not None       # `($name:expr) => trace_span!($name,)`
                 elif m and m.group(1) == callee:
                     if callee == "event":
-                        ok = forwarder(name, pre, rest, wb, "$crate::Level::%s" % lvl)
+                        ok = forwarder(name, pre, rest, wb, "$crate::Level::%s" % lvl, callees=("event",)) is not None
                     else:
                         # span!(prefixes, Level, $name, fields)
                         r2 = strip_frag(rest)
@@ -712,6 +843,21 @@ def tr_bodies(mr, lib, unrec, G):
     arms = d[0][1] if d and len(d) == 1 else None
     if not arms or [(ws(p), ws(b)) for p, b in arms] != [("$span:expr,$($fields:tt)*", "ifletSome(meta)=$span.metadata(){$span.record_all(&$crate::valueset!(meta.fields(),$($fields)*));}")]:
         unrec.append("record_all! definition")
+    # the guard: every base arm must have the same one
+    gl = sorted(set(tuple(g) for _, g in guards))
+    if len(gl) != 1:
+        unrec.append("base arms do not share one guard: %s" % "; ".join("%s: %s" % (w, "&&".join(g)) for w, g in guards)[:300])
+    G.append("(* guard shared by every base arm, as the conjunction read from the arm, `level_enabled!` and MacroCallsite::is_enabled *)")
+    G.append("Definition gen_guard : list gconj := [%s]." % "; ".join(guards[0][1] if guards else []))
+    # prefix sets that are only forwarded (no base arm of their own): where they go
+    frows = []
+    for (k, pin), outs in sorted(fwdmap.items()):
+        if len(outs) != 1:
+            unrec.append("%s(%s) arms forward to different prefix sets: %s" % (k, pin, sorted(outs)))
+        for o in sorted(outs):
+            frows.append("(%s, %s, %s)" % (k, coq_str(pin), coq_str(o)))
+    G.append("(* forwarding arms that change the prefix set: (macro, written prefixes, prefixes of the arm they call) *)")
+    G.append("Definition gen_prefix_forward : list (mkind * string * string) :=\n  [ " + "\n  ; ".join(frows) + " ].")
     G.append("(* base arms: (macro, prefixes, where each valueset! sits = (branch, inside a log-only macro?), how it dispatches) *)")
     G.append("Definition gen_bodies : list (mkind * string * list (branch * bool) * dispatch) :=\n  [ " + "\n  ; ".join(rows) + " ].")
     G.append("(* event!(.., { fields }, fmt-args) arms: where the message field is put *)")
@@ -818,7 +964,7 @@ def main(repo, out):
                            ("gen_nonzero_names", "list (prim * string)", "[]"), ("gen_hand_rows", "list (hty * hbody)", "[]"),
                            ("gen_wrapper_fmt", "list (wrapper * ftrait * fmtimpl)", "[]"),
                            ("gen_valueset_arms", "list (armpat * vemit * cont)", "[]"), ("gen_fieldset_arms", "list (armpat * femit * cont)", "[]"),
-                           ("gen_guard", "list gconj", "[]"), ("gen_bodies", "list (mkind * string * list (branch * bool) * dispatch)", "[]"),
+                           ("gen_guard", "list gconj", "[]"), ("gen_prefix_forward", "list (mkind * string * string)", "[]"), ("gen_bodies", "list (mkind * string * list (branch * bool) * dispatch)", "[]"),
                            ("gen_brace_fmt", "list (string * msgpos)", "[]"), ("gen_forwarders", "N * N", "(0, 1)"),
                            ("gen_vs_record_checks_callsite", "bool", "false"), ("gen_vs_record_skips_none", "bool", "false"),
                            ("gen_span_record_uses_as_field", "bool", "false"), ("gen_as_field", "list (asfield_impl * asfield_how)", "[]")):
